@@ -19,7 +19,7 @@ import time
 import vlib
 from vlib import log, ToolError
 
-DFS = {"JAVA_TOOL_OPTIONS": "-Dtlc2.tool.queue.IStateQueue=StateDeque"}
+DFS = {"JAVA_TOOL_OPTIONS": "-Dtlc2.tool.queue.IStateQueue=StateDeque -XX:ParallelGCThreads=2"}
 
 
 def tlc_validate(mod, rec, trace_file, timeout=600):
